@@ -29,6 +29,14 @@ def neighbours(s, alphabet, whole=True):
                      (''.join(ch for ch in s if ch.isalnum()), 'strip-seps')):
             if t != s:
                 yield t, 'whole:' + d
+        # heavy but uniform decoration (fixed-width padding, one separator between all characters, tripled separators)
+        a = ''.join(ch for ch in s if ch.isalnum())
+        for t, d in ((' '.join(a), 'spaced'), ('-'.join(a), 'hyphenated'), ('.'.join(a), 'dotted'),
+                     (' ' * 40 + s + ' ' * 40, 'pad40'),
+                     (''.join(ch if ch.isalnum() else ch * 3 for ch in s), 'sep3'),
+                     (s[:len(s) // 2] + ' ' * 300 + s[len(s) // 2:], 'gap300')):
+            if t != s:
+                yield t, 'whole:' + d
 
 
 def explore(starts, alphabet, bound=1, alphabet2=None, whole=True):
